@@ -29,13 +29,15 @@ RULE = ("periodic structures from findlib.planted_structure (1-5 planted copies 
         "atoms shared with the search pattern (same element + same coordinates; non-shared atoms differ in element or by "
         ">= 1/1024 A), shuffled atom order; atol in {.05 (mostly), .02, .1, .2} with the copies distorted by <= atol/8; axis / "
         "orientation hints none (75 %) or valid full / partial triples; return_num_matches on (85 %) / off; 20 % of the structures "
-        "declare 1-2 spare atom types at the end of their tables that no atom uses; TWO-STEP histories: a first replacement "
+        "declare 1-2 spare atom types at the end of their tables that no atom uses; a stream with atol in {.2,.25,.3} and copies with one atom displaced radially "
+        "by 0.10..atol/2 (must be matched) resp. atol in {.01,.02} and displacement 2..2.5 atol < 0.05 (must NOT be matched), "
+        "judged against the construction and against find_pattern_in_structure called with the same arguments; TWO-STEP histories: a first replacement "
         "that replaces nothing (fraction 0, or a search pattern that is absent) or half of the matches, then an ordinary "
         "replacement on its result (re-tagged), the full oracle and the tie applied to each step relative to its own input; f in {0,.1,.25,.5,.75,1} or random; replace_all on/off; random seeds. "
         "Thorough adds the full grid mode x shared x f(1/16 steps) x replace_all. "
         "Non-trivial = distinct input on which at least one match was replaced.")
 
-REQUIRED = ("count == replaced == nearest integer to f*found; replaced subset of found; atom / per-element counts change by "
+REQUIRED = ("matches worked on == matches found with the CALLER's tolerance; count == replaced == nearest integer to f*found; replaced subset of found; atom / per-element counts change by "
             "M x (replacement - search); bystanders keep position, element, label, mass, charge, group; shared atoms stay; "
             "inputs unmodified")
 
@@ -85,6 +87,25 @@ def oracle_replace(inp, out):
     used = [tuple(u["idx"]) for u in out["used"]]
     if not out["inputs_unchanged"]:
         return "the structure or a pattern handed in was modified by the call", None
+    # "the number found": found with the CALLER's tolerance.  Independent expectation from the construction of the case
+    # (copies distorted clearly inside / clearly outside the requested atol, margins >= 2x) ...
+    if inp.get("expect"):
+        keys = set(tuple(sorted(t)) for t in found)
+        for grp in inp["expect"].get("in", []):
+            if tuple(grp) not in keys:
+                return ("a copy of the search pattern that lies well within the requested tolerance is not among the matches the "
+                        "replacement worked on", {"copy": list(grp), "atol": inp["atol"], "matches": sorted(keys),
+                                                  "distortion": inp["info"].get("distorted")})
+        for grp in inp["expect"].get("out", []):
+            if tuple(grp) in keys:
+                return ("a copy distorted well beyond the requested tolerance was treated as a match by the replacement",
+                        {"copy": list(grp), "atol": inp["atol"], "matches": sorted(keys), "distortion": inp["info"].get("distorted")})
+    # ... and the search itself, called with the same structure, pattern, tolerance and hints
+    if out.get("find_keys") is not None:
+        keys = sorted(tuple(sorted(t)) for t in found)
+        if keys != [tuple(k) for k in out["find_keys"]]:
+            return ("the matches the replacement worked on are not the matches find_pattern_in_structure reports for the same "
+                    "structure, pattern, tolerance and hints", {"replace": keys, "find": out["find_keys"], "atol": inp["atol"]})
     pel, rel = elems_of(pj), elems_of(rj)
     shared = g.shared_pairs(rel, [a["pos"] for a in rj["atoms"]], pel, [a["pos"] for a in pj["atoms"]])
     # which matches were replaced
@@ -258,7 +279,29 @@ def run_replace_kw(sj, pj, rj, atol, fraction, replace_all, ignore, hints, seed,
     return out
 
 
+def find_keys(inp):
+    """the search on its own, with the caller's arguments: sorted atom groups (None when it raises)"""
+    import mofun.mofun as mm
+    import random as _r
+    import numpy as np
+    s, p = core.atoms_from_json(inp["sj"]), core.atoms_from_json(inp["pj"])
+    h = tuple(inp.get("hints") or (None, None, None))
+    _r.seed(inp["seed"])
+    np.random.seed(inp["seed"] % (2 ** 32))
+    res = core.result_of(lambda: mm.find_pattern_in_structure(s, p, axisp1_idx=h[0], axisp2_idx=h[1], opoint_idx=h[2], atol=inp["atol"]))
+    if "ok" not in res:
+        return None
+    return sorted(sorted(int(i) for i in t) for t in res["ok"])
+
+
 def real(inp):
+    out = _real(inp)
+    if inp.get("expect") or inp.get("check_find"):
+        out["find_keys"] = find_keys(inp)
+    return out
+
+
+def _real(inp):
     return run_replace_kw(inp["sj"], inp["pj"], inp["rj"], atol=inp["atol"], fraction=inp["f"], replace_all=inp["replace_all"],
                           ignore=inp.get("ignore", False), hints=tuple(inp.get("hints") or (None, None, None)), seed=inp["seed"],
                           return_num=inp.get("return_num", True), rj_src=inp.get("rj_src"))
@@ -282,7 +325,8 @@ def tags_of(inp, out):
          "unwrapped-atoms:%s" % ("yes" if i.get("outside") else "no"), "atol:%g" % inp["atol"],
          "hints:%s" % "".join("-" if h is None else "x" for h in (inp.get("hints") or [None] * 3)),
          "return_num_matches:%s" % inp.get("return_num", True), "spare-types:%s" % bool(i.get("spare_types")),
-         "empty-kind:%s" % i.get("empty_kind", "-"), "step:%s" % (i.get("step", "single") if i.get("step") != 1 else "1:" + i.get("step1kind", "?"))]
+         "empty-kind:%s" % i.get("empty_kind", "-"),
+         "distorted-copies:%s" % (i["distorted"]["regime"] if i.get("distorted") else "no"), "step:%s" % (i.get("step", "single") if i.get("step") != 1 else "1:" + i.get("step1kind", "?"))]
     if i.get("step") == 2:
         t.append("step2-after:" + str(i.get("step1")))
     if out.get("found") is not None:
@@ -357,6 +401,8 @@ def run(ctx, oracle_only=False, scale=1):
     # ordinary replacement on the RESULT of step 1, judged by the full oracle relative to its own input
     firsts = [g.first_step(rng) for _ in range(ctx.n(90, 700) * scale)]
     seeds2 = [rng.randrange(1 << 30) for _ in firsts]
+    # non-default tolerances with copies distorted between 0.05 and atol (resp. between atol and 0.05)
+    inps += [g.distorted_case(rng) for _ in range(ctx.n(160, 1200) * scale)]
     pre = []
     for inp1, s2 in zip(firsts, seeds2):
         out1, bad1 = one(inp1)
